@@ -77,12 +77,12 @@ def elemNameOK (q : Str) : Bool :=
   | none => false
 
 /-- an attribute name the writer can write correctly: local part an NCName
-(not the bare `xmlns`), namespace declarable and different from the user's
-default namespace -/
-def attrNameOK (d : Option Str) (n : EName) : Bool :=
+(not the bare `xmlns`), namespace declarable.  (Attributes in the user's default
+namespace are fine since the repair of c03-default-ns-attribute.) -/
+def attrNameOK (_d : Option Str) (n : EName) : Bool :=
   isNCName n.2 && (match n.1 with
     | none => n.2 != xmlnsPrefix
-    | some u => uriOK u && some u != d)
+    | some u => uriOK u)
 
 def attrOK (env : NsEnv) (d : Option Str) (a : Str × Val) : Bool :=
   (match clark a.1 with
